@@ -116,9 +116,15 @@ def NFA.closureFuel (n : NFA) (T : List State) : Nat := T.length + 2 * n.targets
 def NFA.εClosure (n : NFA) (T : List State) : Outcome (List State) :=
   n.closureLoop (n.closureFuel T) T T.reverse
 
+/-- body of the loop of `move`: `if next := n.next(s, a); next != nil { states = states.Union(next) }` -/
+def NFA.moveStep (n : NFA) (a : Symbol) (acc : List State) (s : State) : List State :=
+  match n.next s a with
+  | some nx => sunion acc nx
+  | none => acc
+
 /-- `n.move(T, a)` -/
 def NFA.move (n : NFA) (T : List State) (a : Symbol) : List State :=
-  T.foldl (fun acc s => match n.next s a with | some nx => sunion acc nx | none => acc) []
+  T.foldl (n.moveStep a) []
 
 /-- the `for …; len(s) > 0; s = s[1:]` loop of `Accept` -/
 def NFA.acceptLoop (n : NFA) : List State → List Symbol → Outcome (List State)
@@ -161,18 +167,18 @@ def NFA.equal (n rhs : NFA) : Bool :=
 /-! ## stateManager -/
 
 structure SM where
-  last : State
+  last : Int
   /-- `states[id][s]` as a list of `((id, s), t)` -/
-  tbl : List ((Nat × State) × State)
+  tbl : List ((Nat × Int) × Int)
   deriving Repr
 
-def SM.new (last : State) : SM := ⟨last, []⟩
+def SM.new (last : Int) : SM := ⟨last, []⟩
 
-def SM.find (m : SM) (id : Nat) (s : State) : Option State :=
+def SM.find (m : SM) (id : Nat) (s : Int) : Option Int :=
   (m.tbl.find? (fun e => e.1 == (id, s))).map (·.2)
 
 /-- `m.GetOrCreateState(id, s)` -/
-def SM.get (m : SM) (id : Nat) (s : State) : SM × State :=
+def SM.get (m : SM) (id : Nat) (s : Int) : SM × Int :=
   match m.find id s with
   | some t => (m, t)
   | none => (⟨m.last + 1, m.tbl ++ [((id, s), m.last + 1)]⟩, m.last + 1)
@@ -360,19 +366,19 @@ def NFA.toDFA (n : NFA) : Outcome DFA :=
 
 structure Partition where
   /-- `(States, rep)` in insertion order (`set.NewStable`) -/
-  groups : List (List State × State)
-  nextRep : State
+  groups : List (List Int × Int)
+  nextRep : Int
   deriving Repr
 
 def Partition.empty : Partition := ⟨[], 0⟩
 
 /-- `p.Add(states)` for one group: `groups.Add` skips a group whose state set is already there, `nextRep++` regardless -/
-def Partition.add (p : Partition) (states : List State) : Partition :=
+def Partition.add (p : Partition) (states : List Int) : Partition :=
   if p.groups.any (fun g => setEq g.1 states) then ⟨p.groups, p.nextRep + 1⟩
   else ⟨p.groups ++ [(states, p.nextRep)], p.nextRep + 1⟩
 
 /-- `p.Rep(s)` -/
-def Partition.rep (p : Partition) (s : State) : State :=
+def Partition.rep (p : Partition) (s : Int) : Int :=
   match p.groups.find? (fun g => g.1.contains s) with
   | some g => g.2
   | none => -1
@@ -382,13 +388,16 @@ def Partition.equal (p rhs : Partition) : Bool :=
   (p.groups.length == rhs.groups.length &&
     p.groups.all (fun g => rhs.groups.any (fun h => setEq h.1 g.1))) && p.nextRep == rhs.nextRep
 
+/-- the inner part of `BuildGroupTrans` for one state: the map from symbols to the representatives of the
+groups of the next states (`if rep := p.Rep(next); rep != -1 { Gstrans.Put(a, rep) }`) -/
+def sigOf (p : Partition) (d : DFA) (s : State) : List (Symbol × State) :=
+  match aget s d.trans with
+  | some strans => strans.foldl (fun gs e => if p.rep e.2 ≠ -1 then aput e.1 (p.rep e.2) gs else gs) []
+  | none => []
+
 /-- `p.BuildGroupTrans(dfa, G)` -/
 def Partition.buildGroupTrans (p : Partition) (d : DFA) (G : List State) : List (State × List (Symbol × State)) :=
-  G.foldl (fun gt s =>
-    let gs := match aget s d.trans with
-      | some strans => strans.foldl (fun gs e => if p.rep e.2 ≠ -1 then aput e.1 (p.rep e.2) gs else gs) []
-      | none => []
-    aput s gs gt) []
+  G.foldl (fun gt s => aput s (sigOf p d s) gt) []
 
 /-- the inner `for j := 1; j < len(pairs); j++` loop -/
 def collectSame (strans : List (Symbol × State)) (rest : List (State × List (Symbol × State))) (H : List State) : List State :=
@@ -420,13 +429,37 @@ def buildMin (d : DFA) (P : Partition) : DFA :=
 
 def DFA.minimizeFuel (d : DFA) : Nat := d.states.length + 3
 
+/-- step 1 of `Minimize`: `Π.Add(NF, F)` -/
+def DFA.initPartition (d : DFA) : Partition :=
+  (Partition.empty.add (sdiff d.states d.final)).add d.final
+
+/-- steps 2–3 of `Minimize`: the final partition -/
+def DFA.minimizePartition (d : DFA) : Outcome Partition :=
+  refineLoop d d.minimizeFuel d.initPartition
+
 /-- `d.Minimize()` -/
 def DFA.minimize (d : DFA) : Outcome DFA :=
-  let P0 := (Partition.empty.add (sdiff d.states d.final)).add d.final
-  match refineLoop d d.minimizeFuel P0 with
+  match d.minimizePartition with
   | .ok P => .ok (buildMin d P)
   | .panic => .panic
   | .diverge => .diverge
+
+/-- the transition function as an `Option` (`Next` without the `-1` convention); used by the proofs and by `stableB` -/
+def DFA.δ (d : DFA) (s a : Int) : Option Int :=
+  match aget s d.trans with
+  | some st => aget a st
+  | none => none
+
+/-- self-check evaluated by the driver on the final partition of every `min` op: the partition covers the
+states, never mixes accepting and non-accepting states, and is closed block-wise under the transition
+function (`Proofs/C13Min.lean`: `stable_of_stableB`, `buildMin_lang`). -/
+def stableB (d : DFA) (P : Partition) : Bool :=
+  d.states.all (fun s => P.rep s != -1) &&
+  d.states.all (fun s => d.states.all (fun t => P.rep s != P.rep t ||
+    ((d.final.contains s == d.final.contains t) &&
+      d.symbols.all (fun a => (d.δ s a).map P.rep == (d.δ t a).map P.rep)))) &&
+  P.groups.all (fun G => (G.1.isEmpty && d.states.all (fun s => P.rep s != G.2)) ||
+    (d.states.contains (G.1.headD 0) && P.rep (G.1.headD 0) == G.2))
 
 /-! ## EliminateDeadStates -/
 
